@@ -406,7 +406,7 @@ func API(c Case) (out Case) {
 			r["wb"] = takeEvents()
 		case "optimal":
 			useChan := boolean(e, "chan")
-			stream := []M{}
+			var kept []keptResult
 			closed := false
 			var res solver.Result
 			if useChan {
@@ -414,7 +414,7 @@ func API(c Case) (out Case) {
 				done := make(chan struct{})
 				go func() {
 					for x := range ch {
-						stream = append(stream, resultRec(x))
+						kept = append(kept, streamRec(x))
 						consumerDelay(cfg)
 					}
 					closed = true
@@ -431,7 +431,7 @@ func API(c Case) (out Case) {
 			for k, v := range resultRec(res) {
 				r[k] = v
 			}
-			r["stream"], r["closed"] = stream, closed
+			r["stream"], r["closed"] = lateModels(kept), closed
 			r["wb"] = takeEvents()
 		case "minimize":
 			cost := s.Minimize()
@@ -460,10 +460,33 @@ func consumerDelay(cfg M) {
 	}
 }
 
+// resultRec records a result as the receiver sees it when it arrives (the model is copied, i.e. read,
+// at that moment). streamRec additionally keeps the delivered slice itself: lateModels reads it again
+// once the call has returned, which is what a consumer that keeps the results sees.
 func resultRec(x solver.Result) M {
 	m := []bool{}
 	if x.Status == solver.Sat {
-		m = nnBools(x.Model)
+		m = append(m, x.Model...)
 	}
 	return M{"status": statusOf(x.Status), "model": m, "cost": x.Weight}
+}
+
+type keptResult struct {
+	rec M
+	ref []bool
+}
+
+func streamRec(x solver.Result) keptResult { return keptResult{rec: resultRec(x), ref: x.Model} }
+
+func lateModels(kept []keptResult) []M {
+	res := make([]M, len(kept))
+	for i, k := range kept {
+		late := []bool{}
+		if k.rec["status"] == "SAT" {
+			late = append(late, k.ref...)
+		}
+		k.rec["late"] = late
+		res[i] = k.rec
+	}
+	return res
 }
